@@ -38,6 +38,13 @@ def strategy_(draw, tier):
                                     max_nodes=6 if big else 5, p_node=1, p_opts=0, p_constr=1, p_ignore=6, p_se=6, k_slack=1, p_len=1, p_wild=2))
     else:
         case = draw(gen.model_cases(max_nodes=6 if big else 5, p_node=1, p_opts=0, p_constr=2, p_ignore=4, p_se=4, k_slack=1, p_len=2, p_wild=4))
+    cons = case["kw"].get("subpath_constraints")
+    if cons and case["cls"] not in CYC_CLASSES and draw(st.integers(0, 2)) == 0:
+        # node mode also accepts constraints given as edges of the input graph (they become connector edges of the expansion)
+        E = {(u, v) for u, v, _d in case["graph"]["edges"]}
+        if all(len(c) >= 2 and all((a, b) in E for a, b in zip(c[:-1], c[1:])) for c in cons):
+            case["kw"]["subpath_constraints"] = [[[a, b] for a, b in zip(c[:-1], c[1:])] for c in cons]
+            case["meta"]["edge_constraints"] = True
     if case["cls"] in ("kMinPathError", "kMinPathErrorCycles") and draw(st.integers(0, 1)) == 0:
         # k=None: the model picks the covering number of the non-ignored elements itself - in both representations
         case["kw"]["k"] = None
@@ -53,6 +60,19 @@ def strategy_(draw, tier):
 
 def strategy(tier):
     return strategy_(tier)
+
+
+def expand_constraint(c, ne):
+    """Documented translation of a node-mode constraint: a list of nodes -> their node edges; a list of edges (u, v) of the input
+    graph -> for every edge the node edge of u and the connector (u|out, v|in), and after the last edge the node edge of v."""
+    if c and isinstance(c[0], (list, tuple)):
+        out = []
+        for i, (u, v) in enumerate(c):
+            out += [tuple(ne[u]), (ne[u][1], ne[v][0])]
+            if i == len(c) - 1:
+                out.append(tuple(ne[v]))
+        return out
+    return [tuple(ne[v]) for v in c]
 
 
 def expanded_case(case, G):
@@ -81,7 +101,7 @@ def expanded_case(case, G):
     kw["elements_to_ignore"] = [list(x) for x in dict.fromkeys(tuple(e) for e in ignore)]
     ckey = CONSTRAINT_KEY[cls]
     if ckey in kw:
-        kw[ckey] = [[list(ne[v]) for v in c] for c in kw[ckey]]
+        kw[ckey] = [[list(e) for e in expand_constraint(c, ne)] for c in kw[ckey]]
     if "additional_starts" in kw:
         kw["additional_starts"] = [ne[v][0] for v in kw["additional_starts"]]
     if "additional_ends" in kw:
@@ -145,9 +165,10 @@ def round_trips(G, constraints, labels, routes=()):
         if back != [p]:
             return violation("roundtrip_path", f"condense(expand({p})) = {back}", labels)
     if constraints:
-        exp = guarded(N.get_expanded_subpath_constraints, [list(c) for c in constraints])
+        exp = guarded(N.get_expanded_subpath_constraints, [[(tuple(v) if isinstance(v, list) else v) for v in c] for c in constraints])
+        lib_ne = {v: N.get_expanded_edge(v) for v in G.nodes()}
         for c, ec in zip(constraints, exp):
-            if [e for e in ec] != [N.get_expanded_edge(v) for v in c]:
+            if [tuple(e) for e in ec] != expand_constraint(c, lib_ne):
                 return violation("roundtrip_constraint", f"constraint {c} expanded to {ec}", labels)
     C = guarded(N.get_condensed_graph)
     if set(C.nodes()) != set(G.nodes()) or set(C.edges()) != set(G.edges()) or any(C.nodes[v].get("flow") != G.nodes[v].get("flow") for v in G):
@@ -173,7 +194,7 @@ def run_case(case, tier="quick"):
             if any(v not in G for v in kw.get(key, [])):
                 return invalid_config("unknown node in " + key)
         ckey = CONSTRAINT_KEY[cls]
-        if any(v not in G for c in kw.get(ckey, []) for v in c) or any(len(c) == 0 for c in kw.get(ckey, [])):
+        if any(((v not in G) if isinstance(v, str) else (not G.has_edge(*v))) for c in kw.get(ckey, []) for v in c) or any(len(c) == 0 for c in kw.get(ckey, [])):
             return invalid_config("constraint")
         if cls not in COVER_CLASSES and not any("flow" in d for _v, d in G.nodes(data=True)):
             return invalid_config("no weighted node")
@@ -185,7 +206,7 @@ def run_case(case, tier="quick"):
     if missing and cls not in COVER_CLASSES:
         labels.add("missing_attr")
     if kw.get(ckey):
-        labels.add("node_constraints")
+        labels.add("edge_constraints_in_node_mode" if (case.get("meta") or {}).get("edge_constraints") else "node_constraints")
     for f_ in ("additional_starts", "additional_ends", "elements_to_ignore", "error_scaling"):
         if kw.get(f_):
             labels.add("kw:" + f_)
